@@ -763,8 +763,9 @@ func genC18(r *rand.Rand, tier string, env *Env) []Case {
 	c18Tree := func(extra ...string) Tree {
 		t := Tree{"regex-assembly/942100.ra": []byte("plain\n"), "regex-assembly/942100-chain1.ra": []byte("chainone\n"), "regex-assembly/942100-chain255.ra": []byte("last\n"),
 			"regex-assembly/942100-chain256.ra": []byte("toolarge\n"), "regex-assembly/94210.ra": []byte("short\n"), "regex-assembly/9421000.ra": []byte("long\n"),
-			"regex-assembly/942100-chain01.ra": []byte("leadingzero\n"), "regex-assembly/942100-chain007.ra": []byte("bond\n"), "regex-assembly/942100-chain7.ra": []byte("seven\n"),
-			"regex-assembly/942100-chain0.ra": []byte("zero\n"), "regex-assembly/942100-chain19.ra": []byte("nineteen\n"),
+			// (contents whose first and last bytes are white space that belongs to an entry: the same bytes on stdin mean the same)
+			"regex-assembly/942100-chain01.ra": []byte("leadingzero\nselect \n"), "regex-assembly/942100-chain007.ra": []byte("\fbond\ndelta\n"), "regex-assembly/942100-chain7.ra": []byte("seven\nunion\t"),
+			"regex-assembly/942100-chain0.ra": []byte("zero\nlast\u00a0\n\n"), "regex-assembly/942100-chain19.ra": []byte("\u2003nineteen\nx \n \n"),
 			"regex-assembly/942100xra.ra": []byte("junkx\n"), "regex-assembly/942100-ra.ra": []byte("junkdash\n"), "regex-assembly/9421007ra.ra": []byte("junk7\n"),
 			"regex-assembly/942100-chain1-ra.ra": []byte("junkc\n"), "regex-assembly/942100-chain25ra.ra": []byte("junk25\n"), "regex-assembly/942100-chain1xra.ra": []byte("junk1x\n"),
 			"rules/REQUEST-942-X.conf": []byte("SecRule ARGS \"@rx a\" \\\n    \"id:942100,\\\n    chain\"\n    SecRule ARGS \"@rx b\" \\\n    \"t:none\"\n")}
